@@ -185,6 +185,21 @@ theorem C13_authenticate_never_passes_no_credentials (v : RpId.Verifier) (cfg : 
       simp [Auth.eInvalidCredential] at h
     · cases h
 
+/-- **the status values the ceremony model raises are the regenerated ones**: every error constant of
+Model/Authenticator.lean is the byte that ctap2/error.rs assigns to the variant of that name now -/
+theorem C13_model_status_constants :
+    Ctap.ctap2Error.lookup "InvalidOption" = some Auth.eInvalidOption
+    ∧ Ctap.ctap2Error.lookup "UnsupportedOption" = some Auth.eUnsupportedOption
+    ∧ Ctap.ctap2Error.lookup "OperationDenied" = some Auth.eOperationDenied
+    ∧ Ctap.ctap2Error.lookup "CredentialExcluded" = some Auth.eCredentialExcluded
+    ∧ Ctap.ctap2Error.lookup "UnsupportedAlgorithm" = some Auth.eUnsupportedAlgorithm
+    ∧ Ctap.ctap2Error.lookup "NoCredentials" = some Auth.eNoCredentials
+    ∧ Ctap.ctap2Error.lookup "PinAuthInvalid" = some Auth.ePinAuthInvalid
+    ∧ Ctap.ctap2Error.lookup "UserVerificationBlocked" = some Auth.eUserVerificationBlocked
+    ∧ Ctap.ctap2Error.lookup "InvalidCredential" = some Auth.eInvalidCredential
+    ∧ Ctap.u2FError.lookup "InvalidParameter" = some Auth.eU2fInvalidParameter := by
+  decide +kernel
+
 /-! non-vacuity: a concrete getAssertion request value is well formed and round-trips -/
 example : ValsOk Ctap.getAssertionRequest (fun k => if k = 5 then some defaultOptionsItem else none) (fun _ _ => true)
     [some (.text [97]), some (.bytes [1, 2]), none, none, some defaultOptionsItem, none, none] :=
